@@ -336,6 +336,9 @@ func doDelete(db *gorm.DB, m model, fin finisher, k *keyPat, inline []interface{
 	if fin.pre != "" {
 		db = db.Select(fin.pre)
 		name = fmt.Sprintf("Select(%q).", fin.pre)
+		if fin.pre == clause.Associations {
+			name = "Select(clause.Associations)."
+		}
 	}
 	if inlineS != "" {
 		inlineS = ", " + inlineS
